@@ -124,6 +124,85 @@ theorem C20_row_roundtrip {env : Env} (henv : EnvOK env) (cfg : Config) (row : D
   rw [C20_row_journey, h1]
   simp only [Outcome.bind, h2]
 
+/-- the cell stored under column `k` of an output row -/
+def cellAt (out : List (Key × Text)) (k : Key) : Option Text := (out.find? (·.1 == k)).map (·.2)
+
+theorem cellAt_map (d : Dict) (k : Key) :
+    cellAt (d.map (fun kv => (kv.1, cellOf kv.2))) k = (Dict.get d k).map cellOf := by
+  unfold cellAt Dict.get
+  induction d with
+  | nil => rfl
+  | cons kv d ih =>
+    simp only [List.map_cons, List.find?_cons]
+    cases h : kv.1 == k
+    · simpa using ih
+    · simp
+
+/-- a cell in the form the tools themselves print: text as it is (element without PAN masking),
+    a number as its canonical decimal, a date-time as `YYYY-MM-DD HH:MM:SS` -/
+inductive CanonCell (f : FieldCfg) : Text → Val → Prop
+  | text (t : Text) (h1 : f.proc ≠ .pan) (h2 : f.proc ≠ .panPrefix) : CanonCell f t (.str (transform f t))
+  | number (n : Nat) : CanonCell f (digitText (decDigits n)) (.int (Int.ofNat n))
+  | date (d : DateTime) : CanonCell f (cellOf (.dt d)) (.dt d)
+
+theorem canon_cell {f : FieldCfg} {t : Text} {exp : Val} (h : CanonCell f t exp) : cellOf exp = t := by
+  cases h with
+  | text t h1 h2 =>
+    have : transform f t = t := by
+      unfold transform
+      split
+      · rename_i h; exact absurd h h1
+      · rename_i h; exact absurd h h2
+      · rfl
+    rw [this]; rfl
+  | number n => simp [cellOf, strInt, fmtInt, fmtNat, natDigits_eq]
+  | date d => rfl
+
+/-- C20 (end to end, every kind of column): for a row without PDS columns whose present cells are
+    well formed for their elements and in the form the tools print (`CanonCell`: plain text, a
+    canonical decimal for a numeric element, `YYYY-MM-DD HH:MM:SS` for a date-time element), the
+    row that comes back holds, under every supplied column, EXACTLY the cell that went in -/
+theorem C20_row_cells {env : Env} (henv : EnvOK env) (cfg : Config) (row : Dict)
+    (ds : List Nat) (hds : ∀ d ∈ ds, d < 10) (hl : ds.length = 4)
+    (hmti : Dict.get (row.filter (fun kv => present kv.2)) .mti = some (.str (digitText ds)))
+    (hnopds : pdsEntriesOf (row.filter (fun kv => present kv.2)) = [])
+    (hwf : ElemsWF env cfg (row.filter (fun kv => present kv.2)) allBits)
+    (hcanon : ∀ bit f t exp sub, cfg.get bit = some f →
+        Dict.get (row.filter (fun kv => present kv.2)) (.de bit) = some (.str t) →
+        WFField env bit f (.str t) exp sub → CanonCell f t exp) :
+    ∃ out, csvRow env env cfg row = .ok out ∧
+      cellAt out .mti = some (digitText ds) ∧
+      ∀ bit ∈ allBits, ∀ t, Dict.get (row.filter (fun kv => present kv.2)) (.de bit) = some (.str t) → t ≠ [] →
+        cellAt out (.de bit) = some t := by
+  obtain ⟨bs, d, h1, h2, h3, h4, _⟩ := C01.C01_roundtrip henv cfg false _ ds hds hl hmti hnopds hwf
+  refine ⟨d.map (fun kv => (kv.1, cellOf kv.2)), ?_, ?_, ?_⟩
+  · rw [C20_row_journey, h1]
+    simp only [Outcome.bind, h2]
+  · rw [cellAt_map, h3]; rfl
+  · intro bit hb t hget hne
+    have hp : present (.str t) = true := by cases t <;> simp_all [present]
+    obtain ⟨f, exp, sub, hcfg, hw, hd⟩ := h4 bit hb _ hget hp
+    rw [cellAt_map, hd]
+    simp only [Option.map_some]
+    rw [canon_cell (hcanon bit f t exp sub hcfg hget hw)]
+
+/-- non-vacuity: DE4 of the packaged configuration takes the canonical decimal cell "12" — it is
+    well formed (`WFField.intText`) and in printed form (`CanonCell.number`) -/
+example (pd : Text → Option DateTime) :
+    ∃ f, Gen.bitConfig.get 4 = some f ∧
+      WFField (C01.envOf Gen.cp500 pd) 4 f (.str (digitText (decDigits 12))) (.int (Int.ofNat 12)) [] ∧
+      CanonCell f (digitText (decDigits 12)) (.int (Int.ofNat 12)) := by
+  refine ⟨_, rfl, ?_, CanonCell.number 12⟩
+  refine WFField.intText _ 12 rfl rfl rfl (by decide) ?_ ?_ (by decide)
+  · have := decDigits_ne_nil 12
+    intro h; apply this
+    cases hd : decDigits 12 with
+    | nil => rfl
+    | cons a b => rw [hd] at h; simp [digitText] at h
+  · have h := pyInt_digits (C01.envOK_cp500 pd).sane _ (decDigits_lt 12) (decDigits_ne_nil 12)
+    rw [fromDigits_decDigits] at h
+    exact h
+
 -- sanity test (evaluated): MTI, DE2 with a comma and quotes, DE4 as canonical decimal, DE12 as ISO date-time
 #guard
   let env : Env := { classes := Gen.intClasses, codec := Gen.cp500, de43 := fun _ _ => [],
